@@ -82,7 +82,7 @@ Proof. unfold ah_val. rewrite ah_norm_del_raw. reflexivity. Qed.
 Lemma merge_absent c e :
   cfg_ok c -> kv_ok e ->
   native_merge c [] e =
-    if is_deleted (masked_flags e) && (k_ts e <? c_cutoff c) then Ok []
+    if new_deleted c e && (k_ts e <? c_cutoff c) then Ok []
     else Ok (add_header c (k_val e) (k_ts e) (masked_flags e)).
 Proof. reflexivity. Qed.
 
